@@ -2,13 +2,14 @@ import JPV.Tables.Common
 namespace JPV.Tables
 open JPV JPV.Impl
 
-/-- the call sites into `random` are the five the nondeterministic model covers: in segments.py one
-`random.choice` (visit now or later), one `random.sample` (queue interleaving) and one `random.shuffle` (members of an
-object met by the traversal); in selectors.py two `random.shuffle` (wildcard and filter selector on objects) -/
+/-- the use of `random`, EXECUTED over a fixed corpus with every public callable of the module replaced by a recorder
+(`gen_tables.extract_random_behaviour`): deterministic mode does not touch `random` at all (no row), and nondeterministic
+mode calls exactly the three functions the choice-script model covers, in the shapes it reads them in — `choice([True,
+False])` (visit now or later), `sample(population, len(population))` (queue interleaving), `shuffle(list)` (object
+members) — through the module-level names, which is where the scripted chooser of Tie B replaces them -/
 theorem random_sites_model : Generated.randomCalls =
-    [("segments.py", "random.choice", 1),
-     ("segments.py", "random.sample", 1),
-     ("segments.py", "random.shuffle", 1),
-     ("selectors.py", "random.shuffle", 2)] := by decide +kernel
+    [("nondeterministic", "random.choice:[True, False]", 1),
+     ("nondeterministic", "random.sample:k=len(population)", 1),
+     ("nondeterministic", "random.shuffle:list", 1)] := by decide +kernel
 
 end JPV.Tables
